@@ -18,7 +18,9 @@ Definition cause_eqb (a b : cause) : bool :=
   match a, b with CExc, CExc | CRes, CRes => true | _, _ => false end.
 
 (** Classification(klass, retry_after_s) as returned by the (result) classifier *)
-Record classif := { cl_k : klass; cl_ra : option Z }.
+(** a Retry-After hint as the classifier hands it over: a number of ticks, or a non-finite float (passed through untouched) *)
+Inductive hint := HFin (z : Z) | HNaN | HPInf | HNInf.
+Record classif := { cl_k : klass; cl_ra : option hint }.
 
 Inductive cancel_kind := KCancelled | KKeyboard | KSysExit | KGenExit.
 Definition cancel_kind_eqb (a b : cancel_kind) : bool :=
@@ -96,11 +98,11 @@ Inductive ev :=
 | EInvoke (att : Z) (t : Z)                                           (* operation invoked at time t *)
 | EClassify (att : Z)                                                 (* classifier(exception of attempt att) *)
 | ERClassify (att : Z)                                                (* result_classifier(value of attempt att) *)
-| EStrat (s : sid) (legacy : bool) (att : Z) (k : klass) (ra : option Z)
+| EStrat (s : sid) (legacy : bool) (att : Z) (k : klass) (ra : option hint)
          (prev : option Z) (rem : option Z) (cs : option cause)       (* strategy call and its arguments *)
 | EBudget (granted : bool)                                            (* budget.consume() *)
 | EMetric (n : evname) (att : Z) (sleep : Z) (tg : tags)              (* on_metric(event, attempt, sleep_s, tags) *)
-| ELog (n : evname) (att : Z) (sleep : Z) (tg : tags) (ra : option Z) (* on_log(event, fields) *)
+| ELog (n : evname) (att : Z) (sleep : Z) (tg : tags) (ra : option hint) (* on_log(event, fields) *)
 | EHandler (w : who) (att : Z) (k : klass) (d : Z) (dec : hdec)       (* sleep handler(ctx, sleep_s) *)
 | EBeforeSleep (w : who) (att : Z) (d : Z)                            (* before_sleep(ctx, sleep_s) *)
 | ESleep (w : who) (d : Z) (t : Z).                                   (* sleeper(sleep_s) at time t *)
@@ -206,7 +208,7 @@ Definition guarded {A} (raised : bool) (k : A) : A := if raised then k else k.
 (** [timeline] says whether the timeline collector wraps the metric hook (execute with
     capture_timeline): it records first, then calls the user's on_metric. *)
 Definition emit (m : mode) (c : cfg) (e : env) (s : rst) (n : evname) (att sleep : Z)
-    (k : option klass) (err : bool) (r : option stop) (cs : option cause) (ra : option Z)
+    (k : option klass) (err : bool) (r : option stop) (cs : option cause) (ra : option hint)
     : rst * list ev :=
   let tg := {| t_class := k; t_err := err; t_stop := r; t_cause := cs; t_op := has_opname c |} in
   let timeline := match m with MExec => capture_tl c | MCall => false end in
